@@ -13,6 +13,8 @@
 (*        -> continuation: party ids (duplicate party => error), register   *)
 (*           the reliable-broadcast instance (+ classifier for Sign), Init  *)
 (*           of the back end (Sign: SetShareData may fail), register s2     *)
+(*   reg  (only when the plan pauses there) the continuation is about to    *)
+(*        register its handlers: the injected broadcast factory is running  *)
 (*   s2   second synchronisation (everybody registered)                     *)
 (*   be   the back end's KeyGen / Sign                                      *)
 (*   ret  the API call has returned                                         *)
@@ -43,7 +45,7 @@ NoCall == [kind |-> "", topic |-> "", plan |-> NoPlan, st |-> "new", res |-> "no
 Init == /\ calls = [c \in Calls |-> NoCall] /\ syncs = {} /\ rbcs = {} /\ cls = {} /\ dkg = FALSE /\ nops = 0 /\ hist = <<>>
 
 Topic2(t) == t \o "2"
-Live(c) == calls[c].st \in {"s1", "s2", "be", "stuck"}
+Live(c) == calls[c].st \in {"s1", "reg", "s2", "be", "stuck"}
 
 \* ---- effects (pure): every effect returns [calls, syncs, rbcs, cls, dkg, sig] where sig is the signal the harness sees next
 St == [calls |-> calls, syncs |-> syncs, rbcs |-> rbcs, cls |-> cls, dkg |-> dkg]
@@ -52,7 +54,7 @@ St == [calls |-> calls, syncs |-> syncs, rbcs |-> rbcs, cls |-> cls, dkg |-> dkg
 Return(s, c, r) ==
   LET k == s.calls[c] IN
   [calls |-> [s.calls EXCEPT ![c].st = "ret", ![c].res = r,
-                            ![c].z = IF k.st \in {"s1", "s2", "be"} /\ k.plan.late = k.st THEN k.st ELSE "none"],
+                            ![c].z = IF k.st \in {"s1", "reg", "s2", "be"} /\ k.plan.late = k.st THEN k.st ELSE "none"],
    \* Sign gives up its second topic only when the second synchronisation returns: a late one keeps it until then
    syncs |-> s.syncs \ ({k.topic} \cup (IF k.kind = "sg" /\ k.st = "s2" /\ k.plan.late = "s2" THEN {} ELSE {Topic2(k.topic)})),
    rbcs  |-> s.rbcs \ {k.topic},
@@ -80,7 +82,9 @@ StepEff(c) ==
          IF p.s1 = "err" THEN Return(St, c, "err")
          ELSE IF p.prep = "dup" THEN Return(St, c, "err")
          ELSE IF k.kind = "sg" /\ p.prep = "share" THEN Return(St, c, "err")
+         ELSE IF p.late = "reg" THEN With(St, c, "reg", syncs, rbcs, cls, "reg")      \* paused just before registering
          ELSE With(St, c, "s2", syncs \cup {Topic2(t)}, rbcs \cup {t}, cls \cup {t}, "s2")
+    [] k.st = "reg" -> With(St, c, "s2", syncs \cup {Topic2(t)}, rbcs \cup {t}, cls \cup {t}, "s2")
     [] k.st = "s2" ->
          IF p.s2 = "err"
            THEN \* KeyGen ignores the error of its second synchronisation and waits for the context; Sign gives up the
@@ -121,7 +125,7 @@ DoCall(c, kt, plan) ==
      /\ Op([e |-> "call", c |-> c, kind |-> kt[1], topic |-> kt[2], plan |-> plan, expect |-> e.sig])
 
 DoStep(c) ==
-  /\ calls[c].st \in {"s1", "s2", "be"}
+  /\ calls[c].st \in {"s1", "reg", "s2", "be"}
   /\ calls[c].plan.late # calls[c].st        \* a late stage is only resolved after the call was cancelled
   /\ LET e == StepEff(c) IN Apply(e) /\ Op([e |-> "step", c |-> c, label |-> calls[c].st, expect |-> e.sig])
 
